@@ -92,9 +92,13 @@ def run(case):
         positions = positions[:n]
         pin = positions.copy()
         before = np.array(traj.positions)
-        gcall(an.analyze_trajectory, traj, supercell=tuple(sc), radius=min(radius, 0.3))  # an earlier analysis of the same trajectory
+        if case.get('touch'):
+            gcall(lambda: traj.displacements)  # leaves the trajectory in the displacement representation
+        gcall(an.analyze_trajectory, traj, supercell=tuple(sc), radius=min(radius, 0.3))
+        if case.get('touch'):
+            gcall(traj.mean_squared_displacement)  # an earlier analysis of the same trajectory
         shapes = gcall(an.analyze_trajectory, traj, supercell=tuple(sc), radius=radius)
-        if not np.array_equal(np.array(traj.positions), before):
+        if np.abs(((np.array(traj.positions) - before + 0.5) % 1.0) - 0.5).max() > (1e-9 if case.get('touch') else 0):
             raise Violation('input-positions-unchanged', 'analyze_trajectory(supercell=...) modified the trajectory it was given')
         labels.append('supercell')
     elif case.get('via_trajectory'):
@@ -105,9 +109,13 @@ def run(case):
         positions = positions[:n]
         traj = cases.trajectory(positions.reshape(T, n // T, 3), ['Li'] * (n // T), M)
         before = np.array(traj.positions)
+        if case.get('touch'):
+            gcall(lambda: traj.displacements)
         gcall(an.analyze_trajectory, traj, radius=min(radius, 0.3))
+        if case.get('touch'):
+            gcall(traj.mean_squared_displacement)
         shapes = gcall(an.analyze_trajectory, traj, radius=radius)
-        if not np.array_equal(np.array(traj.positions), before):
+        if np.abs(((np.array(traj.positions) - before + 0.5) % 1.0) - 0.5).max() > (1e-9 if case.get('touch') else 0):
             raise Violation('input-positions-unchanged', 'analyze_trajectory modified the trajectory it was given')
         labels.append('trajectory')
     else:
@@ -174,7 +182,7 @@ def shape_cases(draw, tier):
         positions.append((p - np.floor(p)).tolist())
     for _ in range(draw(st.integers(0, 4))):
         positions.append([draw(st.floats(0, 1, exclude_max=True)) for _ in range(3)])
-    case = {'group': group, 'lattice': lat, 'sites': sites, 'positions': positions, 'radius': radius, 'same_label': draw(st.booleans())}
+    case = {'group': group, 'lattice': lat, 'sites': sites, 'positions': positions, 'radius': radius, 'same_label': draw(st.booleans()), 'touch': draw(st.booleans())}
     mode = draw(st.sampled_from(['positions', 'positions', 'trajectory', 'supercell']))
     if mode == 'trajectory':
         case['via_trajectory'] = True
@@ -187,8 +195,72 @@ def shape_cases(draw, tier):
     return case
 
 
+def run_from_structure(case):
+    """analyser built by ShapeAnalyzer.from_structure from a structure whose origin is shifted (non-standard setting): the
+    symmetry operations must be those of that very structure"""
+    from gemdat.shape import ShapeAnalyzer
+    from pymatgen.core import Structure
+    from pymatgen.symmetry.analyzer import SpacegroupAnalyzer
+
+    M = np.array(case['lattice']['matrix'], float)
+    lat = cases.lattice(case['lattice'])
+    st_ = Structure.from_spacegroup(case['group'], lat, ['Li'], [case['site']])
+    st_.translate_sites(list(range(len(st_))), case['origin'], frac_coords=True, to_unit_cell=True)
+    if len(st_) > 200:
+        raise Skip()
+    ops_i = [(np.array(o.rotation_matrix, float), np.array(o.translation_vector, float)) for o in SpacegroupAnalyzer(st_).get_space_group_operations()]
+    an = gcall(ShapeAnalyzer.from_structure, st_)
+    radius = case['radius']
+    # positions: near the atoms of the structure (which are the symmetry images of the unique site) + uniform points
+    fc = np.array(st_.frac_coords)
+    Minv = np.linalg.inv(M)
+    dirs = gen.unit_dirs()
+    pos = []
+    for k, (ai, di, fr) in enumerate(case['near']):
+        p = fc[ai % len(fc)] + (np.array(dirs[di]) * radius * fr) @ Minv
+        pos.append(p - np.floor(p))
+    pos = np.array(pos + case['uniform'])
+    shapes = gcall(an.analyze_positions, pos.copy(), radius=radius)
+    total = 0
+    for site, shape in zip(an.sites, shapes):
+        want, _nt = expected_points(np.array(site.frac_coords, float), pos, ops_i, M, radius)
+        if want is None:
+            raise Skip()
+        got = np.asarray(shape.coords, float).reshape(-1, 3)
+        total += len(want)
+        if len(got) != len(want):
+            raise Violation('point-count-equals-pair-count', f'from_structure, space group {case["group"]} with origin shifted by {case["origin"]}: {len(got)} points, {len(want)} (operation, position) pairs within {radius} A')
+        if len(want):
+            a = got[np.lexsort(np.round(got, 5).T)]
+            b = want[np.lexsort(np.round(want, 5).T)]
+            if np.abs(a - b).max() > 1e-5:
+                raise Violation('point-is-inverse-operation-image', f'from_structure, space group {case["group"]}, origin {case["origin"]}: points differ from the images under the structure\'s own operations')
+            if np.linalg.norm(got, axis=1).max() >= radius + 1e-7:
+                raise Violation('every-point-within-radius', f'from_structure, space group {case["group"]}')
+    shifted = any(abs(x) > 1e-9 for x in case['origin'])
+    return {'nontrivial': shifted and total > 0, 'labels': [system_of(case['group'])] + (['origin-shifted'] if shifted else [])}
+
+
+@st.composite
+def structure_cases(draw, tier):
+    group = draw(st.sampled_from([2, 4, 5, 12, 14, 15, 19, 33, 62, 63, 88, 123, 129, 139, 148, 166, 176, 194, 198, 216, 225, 227]))
+    system = system_of(group)
+    lat = draw(gen.lattices(families=[system], orients=['pmg'], lmin=4.5, lmax=9.0))
+    M = np.array(lat['matrix'])
+    wmin = float(oracle.perp_widths(M).min())
+    radius = float(draw(st.floats(0.2, min(1.2, 0.45 * wmin))))
+    site = [round(draw(st.floats(0.03, 0.47)), 3) + 0.013 * (k + 1) for k in range(3)]  # a general position
+    origin = [draw(st.sampled_from([0.0, 0.0, 0.25, 0.1, 0.37, draw(st.floats(0, 1, exclude_max=True))])) for _ in range(3)]
+    near = [[draw(st.integers(0, 400)), draw(st.integers(0, 25)), draw(st.sampled_from([0.0, 0.3, 0.9, 0.999, 1.001, 1.2]))] for _ in range(draw(st.integers(2, 8)))]
+    uniform = [[draw(st.floats(0, 1, exclude_max=True)) for _ in range(3)] for _ in range(draw(st.integers(0, 3)))]
+    return {'group': group, 'lattice': lat, 'site': site, 'origin': origin, 'radius': radius, 'near': near, 'uniform': uniform}
+
+
 SUBS = [
     Sub(name='shapes', kind='hyp', run=run, strategy=shape_cases,
         rule='33 space groups covering all crystal systems and centrings (quick) / all 230 by number (thorough); compatible lattice, optionally rotated; 1-2 sites incl. near-face positions; points planted at 0, 0.3, 0.9, 0.999, 1.001, 1.2 x radius from symmetry images + uniform points; positions given directly, as a trajectory, or as a 1-3^3 supercell trajectory',
         n={'quick': 100, 'thorough': 2500}, shards={'quick': 12, 'thorough': 16}),
+    Sub(name='from-structure', kind='hyp', run=run_from_structure, strategy=structure_cases,
+        rule='analyser built with ShapeAnalyzer.from_structure from a full structure (22 groups, general position) whose origin is shifted by a generated vector; expected points from the structure\'s own symmetry operations (SpacegroupAnalyzer, as data) and the brute-force minimum-image oracle',
+        n={'quick': 12, 'thorough': 300}, shards={'quick': 8, 'thorough': 16}),
 ]
